@@ -1,4 +1,120 @@
-//! Kani proof harnesses compiled as a child module of vrp-core/src/construction/features/transport.rs (cfg(kani) only).
+//! Kani proof harnesses compiled as a child module of vrp-core/src/construction/features/transport.rs.
+//!
+//! C06/C01 (state level): `TransportConstraint::evaluate_activity` accepts an insertion between `prev` and `next`
+//! exactly when a forward simulation of prev -> target -> next meets the target's window and reaches `next` no later
+//! than its cached latest-arrival value. Bit-precise second encoding of what the MIR->SMT engine decides relationally.
+use super::*;
+use crate::construction::heuristics::{ActivityContext, RouteContext};
+use crate::models::common::Dimensions;
+use crate::models::problem::SimpleActivityCost;
+use crate::verif_support::*;
+
+fn constraint<const L: usize>(matrix: SymMatrix<L>) -> TransportConstraint {
+    TransportConstraint {
+        transport: Arc::new(matrix),
+        activity: Arc::new(SimpleActivityCost::default()),
+        time_window_code: ViolationCode(1),
+    }
+}
+
+fn any_loc<const L: usize>() -> usize {
+    let l: usize = kani::any();
+    kani::assume(l < L);
+    l
+}
+
+/// Target activity with symbolic place (location, service duration, time window).
+fn any_job_activity<const L: usize>() -> Activity {
+    let start = any_u8f();
+    let end = any_u8f();
+    kani::assume(start <= end);
+    job_activity(single_with(Dimensions::default()), any_loc::<L>(), any_u8f(), start, end)
+}
+
+// @verif props=C06,C01 tier=quick ob=tw_kernel_state fn=TransportConstraint::evaluate_activity,SimpleActivityCost::estimate_departure,SimpleActivityCost::estimate_arrival bounds="closed leg prev->target->next; 3 locations; matrix, windows, service, departure, shift end, latest-arrival state: any u8 as f64" stubs="Arc::drop_slow := no-op"
+#[kani::proof]
+#[kani::unwind(5)]
+#[kani::stub(std::sync::Arc::drop_slow, crate::verif_support::arc_drop_noop)]
+fn c06_tw_kernel_state_closed_leg() {
+    const L: usize = 3;
+    let matrix = SymMatrix::<L>::any_u8();
+    let d = matrix.durations;
+    let constraint = constraint(matrix);
+
+    let shift_end = any_u8f();
+    let actor = actor_with(vehicle_with(Dimensions::default(), costs(0., 1., 1.)), 0, 0., Some(0), shift_end);
+    let mut route_ctx = RouteContext::new(actor);
+
+    let mut prev = any_job_activity::<L>();
+    prev.schedule.departure = any_u8f();
+    let target = any_job_activity::<L>();
+    let next = any_job_activity::<L>();
+    // cached latest arrival at `next` (index 2 of the tour: start, prev, next)
+    let la_next = any_u8f();
+    route_ctx.state_mut().set_latest_arrival_states(vec![0., 0., la_next]);
+
+    // the tour as it stands is feasible on this leg: next is reached in time without the target
+    let dep_prev = prev.schedule.departure;
+    kani::assume(dep_prev + d[prev.place.location][next.place.location] <= la_next);
+    // cached latest arrival never exceeds the window end of its activity
+    kani::assume(la_next <= next.place.time.end);
+
+    let activity_ctx = ActivityContext { index: 1, prev: &prev, target: &target, next: Some(&next) };
+    let result = constraint.evaluate_activity(&route_ctx, &activity_ctx);
+
+    // independent forward simulation of prev -> target -> next
+    let arrival = dep_prev + d[prev.place.location][target.place.location];
+    let service_start = if arrival > target.place.time.start { arrival } else { target.place.time.start };
+    let departure = service_start + target.place.duration;
+    let arrival_next = departure + d[target.place.location][next.place.location];
+    let within_shift = !(shift_end < prev.place.time.start)
+        && !(shift_end < target.place.time.start)
+        && !(shift_end < next.place.time.start);
+    let feasible = within_shift && arrival <= target.place.time.end && arrival_next <= la_next;
+
+    assert!(result.is_none() == feasible);
+    if let Some(violation) = &result {
+        assert!(violation.code == ViolationCode(1));
+        // a `stopped` verdict claims that no later position can work either: only issued for shift-end breaches here
+        assert!(!violation.stopped || !within_shift);
+    }
+    kani::cover!(result.is_none(), "accepted");
+    kani::cover!(result.is_none() && arrival < target.place.time.start, "accepted-with-waiting");
+    kani::cover!(result.as_ref().is_some_and(|v| !v.stopped), "skipped");
+    kani::cover!(result.as_ref().is_some_and(|v| v.stopped), "stopped");
+    std::mem::forget((route_ctx, constraint, prev, target, next));
+}
+
+// @verif props=C06,C01 tier=quick ob=tw_kernel_state fn=TransportConstraint::evaluate_activity,SimpleActivityCost::estimate_arrival bounds="open end: target appended after prev (no next), unlimited shift end as Fleet::new creates it for vehicles without end place; 3 locations; all values any u8 as f64" stubs="Arc::drop_slow := no-op"
+#[kani::proof]
+#[kani::unwind(5)]
+#[kani::stub(std::sync::Arc::drop_slow, crate::verif_support::arc_drop_noop)]
+fn c06_tw_kernel_state_open_end() {
+    const L: usize = 3;
+    let matrix = SymMatrix::<L>::any_u8();
+    let d = matrix.durations;
+    let constraint = constraint(matrix);
+
+    // a vehicle without end place has no latest time: Fleet::new sets the shift end to Float::MAX
+    let actor = actor_with(vehicle_with(Dimensions::default(), costs(0., 1., 1.)), 0, 0., None, Float::MAX);
+    let route_ctx = RouteContext::new(actor);
+
+    let mut prev = any_job_activity::<L>();
+    prev.schedule.departure = any_u8f();
+    let target = any_job_activity::<L>();
+
+    let activity_ctx = ActivityContext { index: 1, prev: &prev, target: &target, next: None };
+    let result = constraint.evaluate_activity(&route_ctx, &activity_ctx);
+
+    // the last activity of an open tour only has to be reached within its own time window
+    let arrival = prev.schedule.departure + d[prev.place.location][target.place.location];
+    let feasible = arrival <= target.place.time.end;
+
+    kani::cover!(result.is_none() && arrival + target.place.duration > target.place.time.end, "accepted-service-ends-after-window");
+    kani::cover!(result.is_some(), "rejected");
+    assert!(result.is_none() == feasible);
+    std::mem::forget((route_ctx, constraint, prev, target));
+}
 
 // Concrete-playback replays (`cargo kani playback`) are compiled from here; the file is written by /verif/check.
 #[cfg(all(kani, test))]
